@@ -130,7 +130,7 @@ def annref(a):
     return '@' + a
 
 
-def _field(out, ind, f):
+def _field(out, ind, f, nested=None):
     if isinstance(f, Tag):
         head = f.name if f.type is None else '%s %s' % (f.name, texpr(f.type))
     else:
@@ -141,6 +141,10 @@ def _field(out, ind, f):
     for a in f.anns:
         out.add(ind + 1, annref(a))
     out.doc(ind + 1, f.doc)
+    if nested is not None:
+        # lang_ref "Nested Definitions": the type of the field is defined inline, without its name
+        d, pick = nested
+        _def(out, d, base=ind + 1, inline=pick, anonymous=True)
 
 
 def _examples(out, ind, examples):
@@ -152,25 +156,27 @@ def _examples(out, ind, examples):
             out.add(ind + 1, '%s = %s' % (k, lit(v)))
 
 
-def _def(out, d):
+def _def(out, d, base=0, inline=None, anonymous=False):
+    """inline: None, or a function (owner definition, field) -> (nested definition, inline) | None choosing definitions that are
+    rendered nested under a struct field instead of at the top level."""
     if isinstance(d, Struct):
-        out.add(0, 'struct %s%s' % (d.name, ' extends ' + texpr(d.parent) if d.parent is not None else ''))
-        out.doc(1, d.doc)
+        out.add(base, 'struct%s%s' % ('' if anonymous else ' ' + d.name, ' extends ' + texpr(d.parent) if d.parent is not None else ''))
+        out.doc(base + 1, d.doc)
         if d.subtypes is not None:
             closed, subs = d.subtypes
-            out.add(1, 'union_closed' if closed else 'union')
+            out.add(base + 1, 'union_closed' if closed else 'union')
             for tag, ref in subs:
-                out.add(2, '%s %s' % (tag, texpr(ref)))
+                out.add(base + 2, '%s %s' % (tag, texpr(ref)))
         for f in d.fields:
-            _field(out, 1, f)
-        _examples(out, 1, d.examples)
+            _field(out, base + 1, f, inline(d, f) if inline is not None else None)
+        _examples(out, base + 1, d.examples)
     elif isinstance(d, Union):
-        out.add(0, '%s %s%s' % ('union_closed' if d.closed else 'union', d.name,
-                                ' extends ' + texpr(d.parent) if d.parent is not None else ''))
-        out.doc(1, d.doc)
+        out.add(base, '%s%s%s' % ('union_closed' if d.closed else 'union', '' if anonymous else ' ' + d.name,
+                                  ' extends ' + texpr(d.parent) if d.parent is not None else ''))
+        out.doc(base + 1, d.doc)
         for t in d.tags:
-            _field(out, 1, t)
-        _examples(out, 1, d.examples)
+            _field(out, base + 1, t)
+        _examples(out, base + 1, d.examples)
     elif isinstance(d, Alias):
         out.add(0, 'alias %s = %s' % (d.name, texpr(d.type)))
         for a in d.anns:
@@ -227,7 +233,23 @@ class RawDef:
         return 'RawDef(%r)' % self.text
 
 
-def render_file_lines(ns_name, f, def_order=None):
+def inline_candidates(f):
+    """(owner name, field name, nested definition name): struct fields whose type is a bare or nullable local reference to a
+    struct / union defined in the same file (lang_ref: a nested definition takes its name from the field's type)."""
+    by_name = {d.name: d for d in f.defs if isinstance(d, (Struct, Union))}
+    out = []
+    for d in f.defs:
+        if not isinstance(d, Struct):
+            continue
+        for fld in d.fields:
+            t = fld.type.inner if isinstance(fld.type, N) else fld.type
+            if isinstance(t, R) and t.ns is None and t.name in by_name and t.name != d.name:
+                out.append((d.name, fld.name, t.name))
+    return out
+
+
+def render_file_lines(ns_name, f, def_order=None, inline=None):
+    """inline: None | 'all' | (owner name, field name): which definitions are rendered nested under the field that uses them."""
     out = Lines()
     out.add(0, 'namespace ' + ns_name)
     out.doc(1, f.doc)
@@ -236,14 +258,47 @@ def render_file_lines(ns_name, f, def_order=None):
         for i in f.imports:
             out.add(0, 'import ' + i)
     defs = f.defs if def_order is None else [f.defs[i] for i in def_order]
+    pick = None
+    nested_names = set()
+    if inline is not None:
+        by_name = {d.name: d for d in f.defs if isinstance(d, (Struct, Union))}
+        cands = inline_candidates(f)
+        chosen = {}        # (owner, field) -> nested name; every definition is nested at most once and never inside itself
+        if inline == 'all':
+            # greedy in file order; a definition that nests others cannot be nested under one of them (no cycles): keep a forest
+            parent_of = {}
+            for owner, fname, nm in cands:
+                if nm in parent_of:
+                    continue
+                # walk up from owner: nm must not be an ancestor of owner
+                cur, ok = owner, True
+                while cur in parent_of:
+                    cur = parent_of[cur]
+                    if cur == nm:
+                        ok = False
+                        break
+                if ok and owner != nm:
+                    parent_of[nm] = owner
+                    chosen[(owner, fname)] = nm
+        else:
+            for owner, fname, nm in cands:
+                if (owner, fname) == tuple(inline):
+                    chosen[(owner, fname)] = nm
+        nested_names = set(chosen.values())
+
+        def pick(owner_def, fld):
+            nm = chosen.get((owner_def.name, fld.name))
+            return (by_name[nm], pick) if nm is not None else None
     for d in defs:
+        if getattr(d, 'name', None) in nested_names and isinstance(d, (Struct, Union)):
+            continue
         out.blank()
-        _def(out, d)
+        _def(out, d, inline=pick)
     return out.lines
 
 
-def render_file(ns_name, f, def_order=None):
-    return '\n'.join(t for t, _ in render_file_lines(ns_name, f, def_order)) + '\n'
+def render_file(ns_name, f, def_order=None, inline=None):
+    return '\n'.join(t for t, _ in render_file_lines(ns_name, f, def_order, inline)) + '\n'
 
 
 def file_path(ns_name, fi):
@@ -255,4 +310,25 @@ def render(model):
     for ns in model.namespaces:
         for fi, f in enumerate(ns.files):
             out.append((file_path(ns.name, fi), render_file(ns.name, f)))
+    return out
+
+
+def render_inline_variants(model):
+    """[(label, specs)]: the same model with definitions nested under the struct fields that use them - every eligible
+    definition at once, and every single (owner, field) site on its own."""
+    out = []
+    sites = [(ns.name, fi, c) for ns in model.namespaces for fi, f in enumerate(ns.files) for c in inline_candidates(f)]
+    if not sites:
+        return out
+
+    def specs_with(choice):
+        res = []
+        for ns in model.namespaces:
+            for fi, f in enumerate(ns.files):
+                res.append((file_path(ns.name, fi), render_file(ns.name, f, inline=choice(ns.name, fi))))
+        return res
+    out.append(('inline:all', specs_with(lambda n, fi: 'all')))
+    if len(sites) > 1:
+        for nsn, fi, (owner, fname, nm) in sites:
+            out.append(('inline:%s/%d:%s.%s=%s' % (nsn, fi, owner, fname, nm), specs_with(lambda n, i, nsn=nsn, fi=fi, owner=owner, fname=fname: (owner, fname) if (n, i) == (nsn, fi) else None)))
     return out
